@@ -1,12 +1,23 @@
 import Qats.Prelude
 import Qats.Model.Filter
+import Qats.Driver.Pipeline
 /-!
-Line-protocol handlers for the filter model (all at `Float`; numbers are IEEE bit patterns):
+Line-protocol handlers for the filter model (`Float`: numbers are IEEE bit patterns; `Rat`: `num/den`):
 
 * `flt.design <lp|hp|bp|bs> <dt> <f…>`           → `ok <order> <btype> <routine> <Wn…>`   | `err value` (wrong arity)
 * `flt.resp   <lp|hp|bp|bs> <dt> <f> <fc…>`      → `ok <responseOf (design …) dt f>`
 * `flt.gain   <lp|hp|bp|bs> <n> <dt> <f> <fc…>`  → `ok <gain n dt spec f>` (the Hz reading, any order)
 * `flt.steady <lp|hp|bp|bs> <dt> <mean> <fc…> | <A f φ>…` → `ok <mean'> <A' f' φ'>…`
+* `flt.lin    <lp|hp|bp|bs> <dt> <fc…> | <a> <mean₁> <A f φ>… | <b> <mean₂> <A f φ>… | <t…>`
+      → `ok <y(t)…>`, `y = (steadyState spec dt (Signal.comb a s₁ b s₂)).eval` (Float)
+* `flt.arity  <lp|hp|bp|bs>`                     → `ok <Kind.arity>`
+* `flt.tsget    <kind> <f…> | twin=… res=… taper=… filter=1 smooth=0 | <t…> | <x…>` (exact `Rat`; options as for `pl.get`)
+      → `ok <t'…> | <x'…>` | `err assertion|bounds|index` — `tsGet` with Python's `round`, the tag taper `x ↦ x + 1` and, in
+      place of scipy's routine `F`, the tag `F design xs = order :: code(btype) :: Wn ++ xs` (codes lp 1, hp 2, bp 3, bs 4):
+      the design the filter stage builds (hence the sampling interval it was given and the cut-offs) and the samples it
+      received (hence the order of the stages) are written out in the compared reply.  `err spec`: ill-formed request.
+* `flt.tsfilter <kind> <f…> | twin=… res=- taper=… filter=1 smooth=0 | <t…> | <x…>`
+      → as `flt.tsget`, or `err value` (wrong number of frequencies) — `tsFilter`.
 -/
 namespace Qats.Driver.Filter
 open Qats Qats.Filter
@@ -28,7 +39,83 @@ def splitAt? (sep : String) (l : List String) : Option (List String × List Stri
   | (a, _ :: b) => some (a, b)
   | _ => none
 
-def handle : List String → Option String
+def kindCode : Kind → Rat
+  | .lp => 1
+  | .hp => 2
+  | .bp => 3
+  | .bs => 4
+
+/-- Tag in place of scipy's forward-backward routine: the design is written in front of the samples it is applied to. -/
+def tagF (d : Design Rat) (xs : List Rat) : List Rat := (Nat.cast d.order : Rat) :: kindCode d.btype :: (d.wn ++ xs)
+
+/-- Tag in place of the Tukey taper. -/
+def tagTaper (xs : List Rat) : List Rat := xs.map (· + 1)
+
+def showPipeErr : Qats.Pipeline.Err → String
+  | .assertion => "err assertion"
+  | .bounds => "err bounds"
+  | .index => "err index"
+
+def showPair (r : List Rat × List Rat) : String :=
+  "ok " ++ Qats.Driver.Pipeline.showList r.1 ++ " | " ++ Qats.Driver.Pipeline.showList r.2
+
+/-- `a mean A f φ …` → coefficient and signal. -/
+def coefSignal? : List Float → Option (Float × Signal Float)
+  | a :: m :: cs => (comps? cs).map fun l => (a, ⟨m, l⟩)
+  | _ => none
+
+def handleTs : List String → Option String
+  | ["flt.arity", k] => do
+    let k ← parseKind? k
+    some s!"ok {k.arity}"
+  | "flt.tsget" :: rest =>
+    match Qats.Driver.Pipeline.splitBar rest with
+    | [k :: fs, o, t, x] => do
+      let k ← parseKind? k
+      let fs ← parseRats? fs
+      let o ← Qats.Driver.Pipeline.parseOpts? o
+      let t ← parseRats? t
+      let x ← parseRats? x
+      match mkSpec k fs with
+      | none => some "err spec"
+      | some s =>
+        match tsGet Qats.Driver.Pipeline.roundHalfEven tagF tagTaper t x s o.twin o.resample o.taper with
+        | .ok r => some (showPair r)
+        | .error e => some (showPipeErr e)
+    | _ => none
+  | "flt.tsfilter" :: rest =>
+    match Qats.Driver.Pipeline.splitBar rest with
+    | [k :: fs, o, t, x] => do
+      let k ← parseKind? k
+      let fs ← parseRats? fs
+      let o ← Qats.Driver.Pipeline.parseOpts? o
+      let t ← parseRats? t
+      let x ← parseRats? x
+      match tsFilter Qats.Driver.Pipeline.roundHalfEven tagF tagTaper t x k fs o.twin o.taper with
+      | .ok r => some (showPair r)
+      | .error .value => some "err value"
+      | .error (.pipeline e) => some (showPipeErr e)
+    | _ => none
+  | "flt.lin" :: k :: dt :: rest =>
+    match Qats.Driver.Pipeline.splitBar rest with
+    | [fs, s1, s2, ts] => do
+      let k ← parseKind? k
+      let dt ← parseFloatBits? dt
+      let fs ← parseFloats? fs
+      let s1 ← parseFloats? s1
+      let s2 ← parseFloats? s2
+      let ts ← parseFloats? ts
+      let (a, x) ← coefSignal? s1
+      let (b, y) ← coefSignal? s2
+      match mkSpec k fs with
+      | none => some "err value"
+      | some s =>
+        let r := steadyState s dt (Signal.comb a x b y)
+        some s!"ok {joinWith " " (ts.map fun t => showFloatBits (r.eval t))}"
+    | _ => none
+  | _ => none
+
+def handleNum : List String → Option String
   | "flt.design" :: k :: dt :: fs => do
     let k ← parseKind? k
     let dt ← parseFloatBits? dt
@@ -70,5 +157,10 @@ def handle : List String → Option String
       let out := r.comps.foldr (fun c acc => showFloatBits c.amp :: showFloatBits c.freq :: showFloatBits c.phase :: acc) []
       some s!"ok {joinWith " " (showFloatBits r.mean :: out)}"
   | _ => none
+
+def handle (toks : List String) : Option String :=
+  match handleNum toks with
+  | some r => some r
+  | none => handleTs toks
 
 end Qats.Driver.Filter
